@@ -1,5 +1,755 @@
 package servermc
 
-// placeholders until C11 lands
-func ChildMain(spec string)  {}
-func RunC11(tier string) int { return 2 }
+import (
+	"bufio"
+	"encoding/json"
+	"fmt"
+	"net"
+	"os"
+	"os/exec"
+	"sort"
+	"strconv"
+	"strings"
+	"sync"
+	"syscall"
+	"time"
+
+	"zmc/ev"
+)
+
+// C11: every argument vector derived by mutation from a valid seed of every registered
+// command is sent over the real redis port of a real server (child process): connection
+// handler with its recover(), leader-side validation, raft, apply. The child must stay alive;
+// a command that answers an error must leave every partition's physical content unchanged;
+// a probe write afterwards must have exactly its own effect.
+
+const K = NS + ":t:k" // kv
+const H = NS + ":t:h" // hash
+const L = NS + ":t:l" // list
+const S = NS + ":t:s" // set
+const Z = NS + ":t:z" // zset
+const B = NS + ":t:b" // bitmap
+const J = NS + ":t:j" // json
+const P = NS + ":t:p" // hll
+const G = NS + ":t:g" // geo
+const K2 = NS + ":t:k2"
+const BK = NS + ":t:bk" // old-format bitmap: a kv value
+
+// Seeds: one valid vector per registered command. (json.mkget is an unimplemented stub: rockredis JMGet
+// returns nil and the handler never writes a reply; the framing below observes that as zero replies.)
+func Seeds() [][]string {
+	return [][]string{
+		// kv
+		{"get", K}, {"stale.get", K}, {"stale.getversion", K}, {"stale.getexpired", K}, {"strlen", K}, {"getrange", K, "0", "1"}, {"getnolock", K}, {"getbit", B, "3"}, {"bitcount", B, "0", "1"},
+		{"mget", K, K2}, {"set", K, "v"}, {"append", K, "x"}, {"setrange", K, "1", "y"}, {"getset", K, "w"}, {"setbit", B, "3", "1"}, {"setbitv2", B, "3", "1"}, {"setbit", BK, "9", "1"}, {"getbit", BK, "1"}, {"bitcount", BK}, {"setnx", K2, "v"},
+		{"setifeq", K, "v", "n"}, {"delifeq", K, "v"}, {"incr", K2}, {"incrby", K2, "5"}, {"pfadd", P, "a", "b"}, {"pfcount", P}, {"bitclear", B},
+		// hash
+		{"hget", H, "f"}, {"stale.hget.version", H, "f"}, {"stale.hgetall.expired", H}, {"stale.hmget.expired", H, "f", "g"}, {"hgetall", H}, {"hkeys", H}, {"hvals", H}, {"hexists", H, "f"},
+		{"hmget", H, "f", "g"}, {"hlen", H}, {"hset", H, "f", "v"}, {"hsetnx", H, "g", "v"}, {"hmset", H, "f", "1", "g", "2"}, {"hdel", H, "f", "g"}, {"hincrby", H, "n", "2"}, {"hclear", H},
+		// json
+		{"json.get", J, "a"}, {"json.keyexists", J}, {"json.mkget", J, "a"}, {"json.type", J, "a"}, {"json.arrlen", J, "a"}, {"json.objkeys", J}, {"json.objlen", J},
+		{"json.set", J, ".", `{"a":[1,2],"b":"x"}`}, {"json.del", J, "b"}, {"json.arrappend", J, "a", "3"}, {"json.arrpop", J, "a"},
+		// list
+		{"lindex", L, "0"}, {"llen", L}, {"lrange", L, "0", "-1"}, {"lfixkey", L}, {"lpop", L}, {"lpush", L, "a", "b"}, {"lset", L, "0", "x"}, {"ltrim", L, "0", "1"}, {"rpop", L}, {"rpush", L, "c"}, {"lclear", L},
+		// zset
+		{"zscore", Z, "m"}, {"zcount", Z, "0", "10"}, {"zcard", Z}, {"zlexcount", Z, "-", "+"}, {"zrange", Z, "0", "-1", "withscores"}, {"zrevrange", Z, "0", "-1"}, {"zrangebylex", Z, "[a", "(z", "limit", "0", "1"},
+		{"zrangebyscore", Z, "0", "(10", "withscores", "limit", "0", "2"}, {"zrevrangebyscore", Z, "10", "0"}, {"zrank", Z, "m"}, {"zrevrank", Z, "m"}, {"zfixkey", Z}, {"zadd", Z, "1", "m", "2", "n"},
+		{"zincrby", Z, "1.5", "m"}, {"zrem", Z, "m", "n"}, {"zremrangebyrank", Z, "0", "0"}, {"zremrangebyscore", Z, "0", "1"}, {"zremrangebylex", Z, "[a", "[b"}, {"zclear", Z},
+		// set
+		{"scard", S}, {"sismember", S, "m"}, {"smembers", S}, {"srandmember", S, "2"}, {"spop", S, "1"}, {"sadd", S, "m", "n"}, {"srem", S, "m"}, {"sclear", S},
+		// ttl
+		{"ttl", K}, {"httl", H}, {"lttl", L}, {"sttl", S}, {"zttl", Z}, {"bttl", B}, {"hkeyexist", H}, {"lkeyexist", L}, {"skeyexist", S}, {"zkeyexist", Z}, {"bkeyexist", B},
+		{"setex", K, "100", "v"}, {"expire", K, "100"}, {"hexpire", H, "100"}, {"lexpire", L, "100"}, {"sexpire", S, "100"}, {"zexpire", Z, "100"}, {"bexpire", B, "100"},
+		{"persist", K}, {"hpersist", H}, {"lpersist", L}, {"spersist", S}, {"zpersist", Z}, {"bpersist", B},
+		// scans
+		{"hscan", H, "", "count", "2", "match", "*"}, {"sscan", S, "", "count", "2"}, {"zscan", Z, "", "count", "2"}, {"hrevscan", H, "z"}, {"srevscan", S, "z"}, {"zrevscan", Z, "z"},
+		{"scan", NS + ":t:", "count", "2", "match", "*"}, {"advscan", NS + ":t:", "hash", "count", "2"}, {"revscan", NS + ":t:z"}, {"advrevscan", NS + ":t:z", "kv"},
+		{"fullscan", NS + ":t:", "kv", "count", "2"}, {"hidx.from", NS + ":t", "where", `"f">1`},
+		// geo
+		{"geoadd", G, "13.361389", "38.115556", "Palermo", "15.087269", "37.502669", "Catania"}, {"geohash", G, "Palermo"}, {"geodist", G, "Palermo", "Catania", "km"}, {"geopos", G, "Palermo"},
+		{"georadius", G, "15", "37", "200", "km", "withdist", "count", "1", "asc"}, {"georadiusbymember", G, "Palermo", "200", "km"},
+		// merged keys
+		{"exists", K, K2}, {"del", K, K2}, {"plset", K, "a", K2, "b"}, {"noopwrite", K, "v"},
+	}
+}
+
+var nasty = []string{"", "0", "-1", "1", "2", "9223372036854775807", "9223372036854775808", "-9223372036854775809", "1e400", "nan", "inf", "-inf", "(1", "[a", "(", "[", "-", "+", "abc",
+	"\x00", "\xff", NS + ":", ":", NS + ":t", NS + ":t:", "nosuchns:t:k", "WITHSCORES", "Limit", "COUNT", "match", "*", "[", `{"a":`, `"`, "$.a[", "a.b..c", "-0", "4294967296", "-4294967297", "0x10", " 1", "1 "}
+
+func bigValues() []string {
+	// just over MaxKeySize / MaxSubKeyLen (10240), a 64 KiB value, an over-long table name
+	return []string{NS + ":t:" + strings.Repeat("k", 10241), strings.Repeat("v", 64*1024), NS + ":" + strings.Repeat("t", 300) + ":k", strings.Repeat("m", 10241)}
+}
+
+// over MaxValueSize (8 MiB): only tried as the last argument
+var hugeValue = strings.Repeat("V", 8*1024*1024+1)
+
+// quick tier: the 8 MiB+1 value only where a value is stored
+var valueWrites = map[string]bool{"set": true, "setex": true, "append": true, "setrange": true, "getset": true, "setnx": true, "setifeq": true, "hset": true, "hsetnx": true, "hmset": true,
+	"lpush": true, "rpush": true, "lset": true, "sadd": true, "zadd": true, "pfadd": true, "json.set": true, "json.arrappend": true, "geoadd": true, "plset": true, "noopwrite": true}
+
+var freshTag int
+
+func isNumeric(a string) bool {
+	_, err := strconv.ParseFloat(a, 64)
+	return err == nil
+}
+
+// freshMutants: argument i is made invalid by size or emptiness while every other non-numeric argument
+// after the key gets a name never used before, so whatever the handler buffered for the earlier,
+// valid arguments before it met the bad one would be visible if it leaked.
+func freshMutants(seed []string) [][]string {
+	var out [][]string
+	for i := 2; i < len(seed); i++ {
+		if isNumeric(seed[i]) {
+			continue
+		}
+		for _, bad := range []string{strings.Repeat("m", 10241), ""} {
+			freshTag++
+			v := append([]string(nil), seed...)
+			for j := 2; j < len(v); j++ {
+				if j != i && !isNumeric(v[j]) {
+					v[j] = fmt.Sprintf("%s~%d", v[j], freshTag)
+				}
+			}
+			v[i] = bad
+			out = append(out, v)
+		}
+	}
+	return out
+}
+
+// Mutations of one seed: single mutations (and, in the thorough tier, all pairs of them for the position-wise replace operator).
+func Mutate(seed []string, pairs bool) [][]string {
+	var out [][]string
+	add := func(v []string) {
+		if len(v) > 0 {
+			out = append(out, v)
+		}
+	}
+	cp := func() []string { return append([]string(nil), seed...) }
+	for i := 1; i < len(seed); i++ {
+		v := cp()
+		add(append(v[:i], v[i+1:]...)) // delete arg i
+		v = cp()
+		add(append(v[:i+1], append([]string{seed[i]}, v[i+1:]...)...)) // duplicate arg i
+		for j := i + 1; j < len(seed); j++ {
+			v = cp()
+			v[i], v[j] = v[j], v[i]
+			add(v)
+		}
+		for _, n := range append(append([]string(nil), nasty...), bigValues()...) {
+			v = cp()
+			v[i] = n
+			add(v)
+		}
+		// option keywords in wrong case
+		v = cp()
+		v[i] = strings.ToUpper(v[i])
+		add(v)
+	}
+	for _, v := range freshMutants(seed) {
+		add(v)
+	}
+	if len(seed) > 2 && (pairs || valueWrites[seed[0]]) {
+		v := cp()
+		v[len(v)-1] = hugeValue
+		add(v)
+	}
+	add(append(cp(), "x"))
+	add(append(cp(), "x", "y"))
+	add(append(cp(), "0"))
+	add(seed[:1])
+	if pairs {
+		small := []string{"", "-1", "9223372036854775807", "nan", "(1", "\x00", NS + ":"}
+		for i := 1; i < len(seed); i++ {
+			for j := i + 1; j < len(seed); j++ {
+				for _, a := range small {
+					for _, b := range small {
+						v := cp()
+						v[i], v[j] = a, b
+						add(v)
+					}
+				}
+			}
+		}
+	}
+	return out
+}
+
+// ---- child ------------------------------------------------------------------------------------
+
+// ChildMain: "<port>": run a 2-partition server; admin port = port+9 answering "dump\n" with
+// one line per partition (digest of the physical content).
+func ChildMain(spec string) {
+	port, _ := strconv.Atoi(spec)
+	// an allocation without bound must end this child, not the sandbox
+	lim := syscall.Rlimit{Cur: 12 << 30, Max: 12 << 30}
+	syscall.Setrlimit(syscall.RLIMIT_AS, &lim)
+	n, err := Start(port, 2, "")
+	if err != nil {
+		fmt.Println("CHILD-ERROR", err)
+		os.Exit(3)
+	}
+	ln, err := net.Listen("tcp", fmt.Sprintf("127.0.0.1:%d", port+9))
+	if err != nil {
+		fmt.Println("CHILD-ERROR", err)
+		os.Exit(3)
+	}
+	fmt.Println("CHILD-READY")
+	for {
+		c, err := ln.Accept()
+		if err != nil {
+			return
+		}
+		go func(c net.Conn) {
+			defer c.Close()
+			br := bufio.NewReader(c)
+			for {
+				l, err := br.ReadString('\n')
+				if err != nil {
+					return
+				}
+				switch strings.TrimSpace(l) {
+				case "dump":
+					var parts []string
+					for i := 0; i < n.Parts; i++ {
+						parts = append(parts, DumpKey(n.PartDump(i)))
+					}
+					fmt.Fprintf(c, "%s\n", strings.Join(parts, " | "))
+				case "fulldump":
+					var parts []string
+					for i := 0; i < n.Parts; i++ {
+						d := n.PartDump(i)
+						ks := make([]string, 0, len(d))
+						for k := range d {
+							ks = append(ks, k)
+						}
+						sort.Strings(ks)
+						for _, k := range ks {
+							v := d[k]
+							if len(v) > 48 {
+								v = v[:48]
+							}
+							parts = append(parts, fmt.Sprintf("p%d %q=%q", i, k, v))
+						}
+					}
+					fmt.Fprintf(c, "%s\n", strings.Join(parts, "\x1e"))
+				case "quit":
+					n.Stop()
+					os.Exit(0)
+				}
+			}
+		}(c)
+	}
+}
+
+type child struct {
+	cmd     *exec.Cmd
+	port    int
+	conn    *Conn
+	admin   net.Conn
+	abr     *bufio.Reader
+	dir     string
+	errPath string
+}
+
+// panicLine: the panic message and the first repository frame from the dead child's stderr.
+func (c *child) panicLine() string {
+	b, err := os.ReadFile(c.errPath)
+	if err != nil {
+		return ""
+	}
+	var msg, frame string
+	for _, l := range strings.Split(string(b), "\n") {
+		if msg == "" && (strings.HasPrefix(l, "panic:") || strings.HasPrefix(l, "fatal error:")) {
+			msg = l
+		}
+		if msg != "" && frame == "" && strings.Contains(l, "/repo/") {
+			frame = strings.TrimSpace(l)
+			if i := strings.Index(frame, " +0x"); i > 0 {
+				frame = frame[:i]
+			}
+		}
+	}
+	return msg + " at " + frame
+}
+
+func startChild(port int) (*child, error) {
+	var c *child
+	var err error
+	for try := 0; try < 5; try++ {
+		c, err = startChildOnce(FreeBase())
+		if err == nil {
+			return c, nil
+		}
+		time.Sleep(time.Duration(try+1) * 200 * time.Millisecond)
+	}
+	return nil, err
+}
+
+func startChildOnce(port int) (*child, error) {
+	cmd := exec.Command(os.Args[0], "-child", strconv.Itoa(port))
+	out, err := cmd.StdoutPipe()
+	if err != nil {
+		return nil, err
+	}
+	errFile, _ := os.CreateTemp("/dev/shm", "zrverif-c11-stderr-")
+	if errFile != nil {
+		cmd.Stderr = errFile
+		defer errFile.Close()
+	}
+	if os.Getenv("VERIF_C11_STDERR") != "" {
+		cmd.Stderr = os.Stderr
+	}
+	if err := cmd.Start(); err != nil {
+		return nil, err
+	}
+	br := bufio.NewReader(out)
+	ready := make(chan error, 1)
+	go func() {
+		for {
+			l, err := br.ReadString('\n')
+			if err != nil {
+				ready <- fmt.Errorf("child ended before ready: %v", err)
+				return
+			}
+			if strings.HasPrefix(l, "CHILD-READY") {
+				ready <- nil
+				// keep draining (the mem engine prints to stdout)
+				go func() {
+					for {
+						if _, err := br.ReadString('\n'); err != nil {
+							return
+						}
+					}
+				}()
+				return
+			}
+			if strings.HasPrefix(l, "CHILD-ERROR") {
+				ready <- fmt.Errorf("%s", l)
+				return
+			}
+		}
+	}()
+	select {
+	case err := <-ready:
+		if err != nil {
+			cmd.Process.Kill()
+			cmd.Wait()
+			return nil, err
+		}
+	case <-time.After(60 * time.Second):
+		cmd.Process.Kill()
+		cmd.Wait()
+		return nil, fmt.Errorf("child not ready after 60s")
+	}
+	c := &child{cmd: cmd, port: port}
+	if errFile != nil {
+		c.errPath = errFile.Name()
+	}
+	c.conn, err = Dial(port)
+	if err != nil {
+		return nil, err
+	}
+	c.admin, err = net.Dial("tcp", fmt.Sprintf("127.0.0.1:%d", port+9))
+	if err != nil {
+		return nil, err
+	}
+	c.abr = bufio.NewReader(c.admin)
+	return c, nil
+}
+
+func (c *child) dump() (string, error) {
+	c.admin.SetDeadline(time.Now().Add(60 * time.Second))
+	if _, err := fmt.Fprintf(c.admin, "dump\n"); err != nil {
+		return "", err
+	}
+	l, err := c.abr.ReadString('\n')
+	return strings.TrimSpace(l), err
+}
+
+func (c *child) fulldump() []string {
+	c.admin.SetDeadline(time.Now().Add(60 * time.Second))
+	fmt.Fprintf(c.admin, "fulldump\n")
+	l, _ := c.abr.ReadString('\n')
+	l = strings.TrimRight(l, "\n")
+	if l == "" {
+		return nil
+	}
+	return strings.Split(l, "\x1e")
+}
+
+// ReplayC11 re-sends one recorded vector to a fresh child and prints what it did.
+func ReplayC11(file string) int {
+	var rec struct {
+		Replay struct {
+			Prior  string   `json:"prior"`
+			Vector []string `json:"vector"`
+		} `json:"replay"`
+	}
+	b, err := os.ReadFile(file)
+	if err != nil || json.Unmarshal(b, &rec) != nil {
+		fmt.Println("INFRA: cannot read", file)
+		return 2
+	}
+	ch, err := startChild(24000 + (os.Getpid()%200)*200)
+	if err != nil {
+		fmt.Println("INFRA:", err)
+		return 2
+	}
+	defer ch.stop()
+	if rec.Replay.Prior == "populated" {
+		populate(ch.conn)
+	}
+	before := ch.fulldump()
+	rs, err := ch.conn.DoFramed(rec.Replay.Vector)
+	fmt.Printf("vector %s -> %v (err %v)\n", vecStr(rec.Replay.Vector), rs, err)
+	time.Sleep(200 * time.Millisecond)
+	if !ch.alive() {
+		fmt.Println("the data node process is dead")
+		return 1
+	}
+	after := ch.fulldump()
+	bm := map[string]bool{}
+	for _, l := range before {
+		bm[l] = true
+	}
+	am := map[string]bool{}
+	for _, l := range after {
+		am[l] = true
+		if !bm[l] {
+			fmt.Println("  + ", l)
+		}
+	}
+	for _, l := range before {
+		if !am[l] {
+			fmt.Println("  - ", l)
+		}
+	}
+	return 0
+}
+
+func (c *child) alive() bool {
+	// signal 0: is the process still there (and not a zombie: try a ping on a new connection)
+	cc, err := Dial(c.port)
+	if err != nil {
+		return false
+	}
+	defer cc.Close()
+	r, err := cc.Do("ping")
+	return err == nil && r.S == "PONG"
+}
+
+func (c *child) stop() {
+	if c.admin != nil {
+		fmt.Fprintf(c.admin, "quit\n")
+	}
+	done := make(chan struct{})
+	go func() { c.cmd.Wait(); close(done) }()
+	select {
+	case <-done:
+	case <-time.After(10 * time.Second):
+		c.cmd.Process.Kill()
+		<-done
+	}
+	if c.errPath != "" {
+		os.Remove(c.errPath)
+	}
+}
+
+func populate(c *Conn) {
+	for _, cmd := range [][]string{{"del", K, K2, NS + ":t:same", NS + ":t:", BK}, {"bitclear", BK}, {"hclear", H}, {"lclear", L}, {"sclear", S}, {"zclear", Z}, {"bitclear", B}, {"json.del", J}, {"del", P}, {"zclear", G},
+		{"hclear", NS + ":t:same"}, {"lclear", NS + ":t:same"}, {"sclear", NS + ":t:same"}, {"zclear", NS + ":t:same"}, {"set", K, "v"}, {"set", K2, "7"}, {"hmset", H, "f", "1", "g", "2", "n", "5"}, {"rpush", L, "a", "b", "c"}, {"sadd", S, "m", "n", "o"}, {"zadd", Z, "1", "m", "2", "n", "3", "o"},
+		{"setbitv2", B, "3", "1"}, {"json.set", J, ".", `{"a":[1,2],"b":"x"}`}, {"pfadd", P, "a", "b"}, {"geoadd", G, "13.361389", "38.115556", "Palermo", "15.087269", "37.502669", "Catania"},
+		// a kv value with an empty name (accepted by SET), an old-format bitmap stored as a kv value
+		{"set", NS + ":t:", "v"}, {"set", BK, "\xf0\x0f"},
+		// the same name under several types
+		{"set", NS + ":t:same", "v"}, {"hset", NS + ":t:same", "f", "v"}, {"rpush", NS + ":t:same", "a"}, {"sadd", NS + ":t:same", "m"}, {"zadd", NS + ":t:same", "1", "m"}} {
+		c.Do(cmd...)
+	}
+}
+
+type InputStats struct {
+	Vectors, Errors, Deaths, Restarts, DumpChecks, Probes int
+	ByCommand                                             map[string]int
+}
+
+func vecStr(v []string) string {
+	var p []string
+	for _, a := range v {
+		if len(a) > 40 {
+			p = append(p, fmt.Sprintf("%q...(%d bytes)", a[:16], len(a)))
+		} else {
+			p = append(p, fmt.Sprintf("%q", a))
+		}
+	}
+	return "[" + strings.Join(p, " ") + "]"
+}
+
+func short(r Reply) string {
+	x := r.String()
+	if len(x) > 200 {
+		x = x[:200] + "..."
+	}
+	return x
+}
+
+// one probe key per partition
+var probeKeys = func() []string {
+	got := map[int]string{}
+	for i := 0; len(got) < 2; i++ {
+		k := fmt.Sprintf("%s:probe:p%d", NS, i)
+		if _, ok := got[pidOf(k, 2)]; !ok {
+			got[pidOf(k, 2)] = k
+		}
+	}
+	return []string{got[0], got[1]}
+}()
+
+func replyCount(v []string) int {
+	if strings.ToLower(v[0]) == "plset" {
+		n := (len(v) - 1) / 2
+		if n < 1 {
+			n = 1
+		}
+		return n
+	}
+	return 1
+}
+
+// runShard sends its share of the vectors to its own child.
+func runShard(col *ev.Collector, shard, nshards int, vectors [][]string, prior string, port int, dl ev.Deadline, st *InputStats, mu *sync.Mutex) bool {
+	ch, err := startChild(port)
+	if err != nil {
+		fmt.Println("INFRA: cannot start server child:", err)
+		return false
+	}
+	defer func() { ch.stop() }()
+	if prior == "populated" {
+		populate(ch.conn)
+	}
+	dirty := false
+	sent := 0
+	for i, v := range vectors {
+		if i%nshards != shard {
+			continue
+		}
+		if dl.Hit() {
+			return false
+		}
+		name := strings.ToLower(v[0])
+		sent++
+		if sent%300 == 0 {
+			// accepted vectors with fresh names make the store grow; a fresh child keeps every dump small
+			ch.stop()
+			ch, err = startChild(port)
+			if err != nil {
+				fmt.Println("INFRA: cannot restart server child:", err)
+				return false
+			}
+			dirty = prior == "populated"
+		}
+		if prior == "populated" && dirty {
+			// the previous vector was accepted and may have consumed what this one needs: same prior state for every vector
+			populate(ch.conn)
+			dirty = false
+		}
+		before, derr := ch.dump()
+		if derr != nil {
+			fmt.Println("INFRA: dump failed:", derr)
+			return false
+		}
+		var r Reply
+		tv := time.Now()
+		rs, rerr := ch.conn.DoFramed(v)
+		// an error = every reply is an error (PLSET answers per pair and applies the pairs of the partitions that succeeded)
+		nerr := 0
+		for _, x := range rs {
+			if x.Kind == "err" {
+				nerr++
+				r = x
+			}
+		}
+		if len(rs) > 0 && nerr < len(rs) {
+			r = Reply{Kind: "ok"}
+			for _, x := range rs {
+				if x.Kind != "err" {
+					r = x
+				}
+			}
+		}
+		if rerr == nil && len(rs) == 0 {
+			col.Outcome("no-reply:" + name)
+			r = Reply{Kind: "err", S: "(no reply at all)"}
+		}
+		if len(rs) > 1 {
+			col.Outcome(fmt.Sprintf("multi-reply:%s", name))
+		}
+		if d := time.Since(tv); d > 200*time.Millisecond && os.Getenv("VERIF_C11_SLOW") != "" {
+			fmt.Printf("slow %v: %s -> %s %v\n", d, vecStr(v), short(r), rerr)
+		}
+		mu.Lock()
+		st.Vectors++
+		st.ByCommand[name]++
+		mu.Unlock()
+		if rerr != nil {
+			// the connection was closed: a recovered panic in a read handler closes it (tolerated);
+			// a dead process is not
+			ch.conn.Close()
+			if !ch.alive() {
+				// confirm by sending the vector alone to a fresh child
+				time.Sleep(100 * time.Millisecond)
+				why := ch.panicLine()
+				ch.stop()
+				mu.Lock()
+				st.Deaths++
+				mu.Unlock()
+				confirmed := false
+				if c2, err := startChild(port); err == nil {
+					if prior == "populated" {
+						populate(c2.conn)
+					}
+					c2.conn.Do(v...)
+					time.Sleep(300 * time.Millisecond)
+					confirmed = !c2.alive()
+					c2.stop()
+				}
+				sig := "process-dies"
+				if !confirmed {
+					sig = "process-dies-unconfirmed"
+				}
+				col.Add(ev.Violation{Property: "C11", Signature: "C11|" + name + "|" + sig, What: fmt.Sprintf("prior state %s: sending %s kills the data node process: %s (confirmed on a fresh child: %v)", prior, vecStr(v), why, confirmed),
+					Replay: map[string]interface{}{"prior": prior, "vector": v}})
+				ch, err = startChild(port)
+				if err != nil {
+					fmt.Println("INFRA: cannot restart server child:", err)
+					return false
+				}
+				mu.Lock()
+				st.Restarts++
+				mu.Unlock()
+				if prior == "populated" {
+					populate(ch.conn)
+				}
+				continue
+			}
+			// no complete reply: the server closed the connection (a panic on the connection path is
+			// recovered there) or the reply is malformed/never ends. Not an error reply, so the
+			// unchanged-data obligation does not apply; the leak probe below still does.
+			if ne, ok := rerr.(net.Error); ok && ne.Timeout() {
+				col.Outcome("no-complete-reply(malformed or missing):" + name)
+			} else {
+				col.Outcome("connection-closed-by-server(recovered panic or protocol error):" + name)
+			}
+			ch.conn, err = Dial(ch.port)
+			if err != nil {
+				return false
+			}
+			r = Reply{Kind: "noreply"}
+		}
+		if r.Kind != "err" {
+			dirty = true
+		}
+		if r.Kind == "err" {
+			mu.Lock()
+			st.Errors++
+			st.DumpChecks++
+			mu.Unlock()
+			after, derr := ch.dump()
+			if derr != nil {
+				fmt.Println("INFRA: dump failed:", derr)
+				return false
+			}
+			if after != before {
+				col.Add(ev.Violation{Property: "C11", Signature: "C11|" + name + "|error-but-data-changed", What: fmt.Sprintf("prior state %s: %s answered %s but the stored data changed (%s -> %s)", prior, vecStr(v), short(r), before, after),
+					Replay: map[string]interface{}{"prior": prior, "vector": v}})
+			}
+		}
+		if r.Kind == "err" || r.Kind == "noreply" {
+			// nothing buffered leaks into the next command: a probe write on every partition has exactly its own effect
+			b2, _ := ch.dump()
+			for _, pk := range probeKeys {
+				ch.conn.Do("set", pk, "p")
+			}
+			mid, _ := ch.dump()
+			for _, pk := range probeKeys {
+				ch.conn.Do("del", pk)
+			}
+			a2, _ := ch.dump()
+			mu.Lock()
+			st.Probes++
+			mu.Unlock()
+			if a2 != b2 || mid == b2 {
+				col.Add(ev.Violation{Property: "C11", Signature: "C11|" + name + "|leaks-into-next-command", What: fmt.Sprintf("prior state %s: after %s answered %s, a probe SET+DEL of a fresh key on every partition does not return the store to its content (%s -> %s -> %s)", prior, vecStr(v), short(r), b2, mid, a2),
+					Replay: map[string]interface{}{"prior": prior, "vector": v}})
+			}
+		}
+	}
+	// final liveness
+	if !ch.alive() {
+		col.Add(ev.Violation{Property: "C11", Signature: "C11|process-dead-at-end", What: "the data node is not answering at the end of the shard"})
+	}
+	return true
+}
+
+func RunC11(tier string) int {
+	quick := tier == "quick"
+	col := ev.NewCollector("C11", tier, "exploration")
+	dl := ev.NewDeadline(ev.EnvDur("VERIF_BUDGET", map[bool]time.Duration{true: 150 * time.Second, false: 20 * time.Minute}[quick]))
+	var vectors [][]string
+	seen := map[string]bool{}
+	for _, s := range Seeds() {
+		for _, v := range append([][]string{s}, Mutate(s, !quick)...) {
+			k := strings.Join(v, "\x1f")
+			if !seen[k] {
+				seen[k] = true
+				vectors = append(vectors, v)
+			}
+		}
+	}
+	st := &InputStats{ByCommand: map[string]int{}}
+	var mu sync.Mutex
+	nshards := 12
+	complete := true
+	for _, prior := range []string{"empty", "populated"} {
+		var wg sync.WaitGroup
+		for sh := 0; sh < nshards; sh++ {
+			wg.Add(1)
+			go func(sh int) {
+				defer wg.Done()
+				port := 24000 + (os.Getpid()%200)*200 + sh*20
+				if !runShard(col, sh, nshards, vectors, prior, port, dl, st, &mu) {
+					mu.Lock()
+					complete = false
+					mu.Unlock()
+				}
+			}(sh)
+		}
+		wg.Wait()
+	}
+	cmds := make([]string, 0, len(st.ByCommand))
+	for c := range st.ByCommand {
+		cmds = append(cmds, c)
+	}
+	sort.Strings(cmds)
+	fmt.Printf("[C11] vectors sent=%d (distinct per prior state %d, %d commands) error replies=%d dump checks=%d probes=%d process deaths=%d complete=%v\n", st.Vectors, len(vectors), len(cmds), st.Errors, st.DumpChecks, st.Probes, st.Deaths, complete)
+	col.Set("evaluations", st.Vectors)
+	col.Set("distinct_nontrivial", len(vectors))
+	col.Set("commands_covered", cmds)
+	col.Set("error_replies", st.Errors)
+	col.Set("unchanged_after_error_checks", st.DumpChecks)
+	col.Set("probe_writes", st.Probes)
+	col.Set("process_deaths", st.Deaths)
+	col.Set("exhaustive", complete)
+	col.Set("rule", "a valid seed vector for every registered read, write and merge command; mutation operators applied exhaustively once (thorough: position pairs too): delete / duplicate / swap arguments, append 1-2 arguments, upper-case, replace each argument by each value of a nasty pool (empty, integer and float edges, nan/inf, range syntax fragments, 00/ff, namespace fragments, option keywords, 10241-byte key and member (limit 10240), 64 KiB value, 8 MiB+1 value as last argument), fresh-name variants (one argument invalid by size, every other one renamed to a never-used name); every vector sent as raw RESP to the real redis port of a real server child (2 partitions), from the empty and a populated state; oracle: the process stays alive (a death is confirmed on a fresh child), an error reply leaves the physical content of every partition unchanged, a probe SET+DEL afterwards has exactly its own effect. non-trivial = distinct vectors")
+	col.Sample(map[string]interface{}{"seed": []string{"zrangebyscore", Z, "0", "(10", "withscores", "limit", "0", "2"}, "mutants": []string{`zrangebyscore z nan (10 ...`, `zrangebyscore z 0 (10 withscores limit 0`, `zrangebyscore z 0 (10 LIMIT ...`}})
+	col.Sample(map[string]interface{}{"nasty_pool": nasty})
+	col.Assume = []string{"a panic in a read handler is recovered by the server and closes the connection: tolerated by the statement", "replicator 1 (a panic in apply would kill every replica the same way)"}
+	if st.Errors == 0 && col.NumViolationSigs() == 0 {
+		fmt.Println("INFRA: vacuous (no error reply observed)")
+		col.Finish()
+		return 2
+	}
+	return col.Finish()
+}
